@@ -86,6 +86,13 @@ class CallableObj(object):
         return ("repl", "callable", self.n, args, tuple(sorted(kw.items())))
 
 
+class FalsyCallable(CallableObj):
+    """A callable replacement that is falsy (e.g. a call recorder derived from list, still empty)."""
+
+    def __len__(self):
+        return 0
+
+
 class RaisingCallable(object):
     def __init__(self, n):
         self.n = n
@@ -152,6 +159,8 @@ class C19(object):
                 if op[0] in ("with", "deco", "start"):
                     if op[2] == "callable" and d % 3 == 0:
                         op[2] = "callable_raising"   # a replacement that raises
+                    elif op[2] == "callable" and d % 3 == 1:
+                        op[2] = "callable_falsy"     # a replacement object that is falsy
                     elif op[2] == "default" and d % 3 == 0:
                         op[2] = "default_raising"    # a default mock with a raising side_effect
                     if op[0] != "start":
@@ -219,6 +228,8 @@ class C19(object):
                 args = [CallableObj(serial)]
             elif kind == "callable_raising":
                 args = [RaisingCallable(serial)]
+            elif kind == "callable_falsy":
+                args = [FalsyCallable(serial)]
             elif kind == "returns_future":
                 args = [FutureReturning(serial)]
             elif kind == "new_callable":
@@ -269,7 +280,7 @@ class C19(object):
                 return ("V", ("repl", "callable", "shared", pos, ()))
             if kind == "returns_future":
                 return ("F", ("inner", serial, pos))
-            if kind in ("callable", "new_callable"):
+            if kind in ("callable", "new_callable", "callable_falsy"):
                 return ("V", ("repl", "callable", serial, pos, ()))
             return ("N", None)
 
@@ -280,7 +291,7 @@ class C19(object):
                 cur = current(t)
                 want = originals[t] if not stacks[t] else stacks[t][-1][2]
                 if stacks[t] and stacks[t][-1][0] in ("default", "new_callable", "callable", "callable_shared", "returns_future", "bound", "function",
-                                                      "default_raising", "callable_raising"):
+                                                      "default_raising", "callable_raising", "callable_falsy"):
                     return
                 if want is not None and cur is not want and cur != want:
                     out.append(("installed", "target %s holds %r, the model says %r" % (t, cur, want)))
